@@ -47,6 +47,15 @@ func (r *nrec) stat(k string, n int) {
 	r.mu.Unlock()
 }
 
+// settle: the barriers return when nothing is in flight; the goroutine that ran the last job still
+// has its epilogue to finish (Completed is counted after the slot is released). "At rest" in native
+// mode = give it up to two seconds.
+func settle(ok func() bool) {
+	for i := 0; i < 400 && !ok(); i++ {
+		time.Sleep(5 * time.Millisecond)
+	}
+}
+
 func within(d time.Duration, f func()) bool {
 	done := make(chan struct{})
 	go func() { f(); close(done) }()
@@ -214,6 +223,7 @@ func nativeOutcomes(r *nrec, rng *rand.Rand) {
 		}
 		w.WaitUntilFinished()
 		m := w.Metrics()
+		settle(func() bool { return m.Completed() == uint64(n) })
 		if m.Completed() != uint64(n) || m.Failed() != uint64(3*n/5) || m.Successful()+m.Failed() != m.Completed() {
 			r.add("C07", "metrics", "error worker: Completed=%d Successful=%d Failed=%d for %d jobs of which %d fail", m.Completed(), m.Successful(), m.Failed(), n, 3*n/5)
 		}
@@ -270,6 +280,7 @@ func nativeOutcomes(r *nrec, rng *rand.Rand) {
 		}
 		w.WaitUntilFinished()
 		m := w.Metrics()
+		settle(func() bool { return m.Failed()+m.Successful() == 100 })
 		if ran.Load() != 100 || m.Failed() != 25 || m.Successful() != 75 {
 			r.add("C07", "panic-not-contained", "plain worker: %d of 100 jobs ran, Failed=%d Successful=%d (25 of them panic with a []byte)", ran.Load(), m.Failed(), m.Successful())
 		}
